@@ -12,7 +12,7 @@ RULE = ("conv probe: DATA conversations whose bodies contain bait command lines 
         "{SMTP, LMTP, LMTP+LMTPSession} followed by marker commands: bait never executed, markers executed once in order; "
         "dr probe: every stream over the tokens {LF.LF, LF.CRLF, CRLF.LF, CR.CR, CRLF.CRLF, 'a', bait line} up to the "
         "tier's token count, with and without size limit, under 4 read schedules; leftover input compared octet for "
-        "octet; sched probe: forced order {backend returns early, then the rest of the message, the marker and the next commands arrive} in SMTP, LMTP and LMTP+LMTPSession. non-trivial = the stream contains a terminator look-alike or a bait line")
+        "octet; conv probe with a read timeout inside a message (DATA and BDAT payloads) and the rest, with bait lines, arriving afterwards: nothing after a timeout is executed; sched probe: forced order {backend returns early, then the rest of the message, the marker and the next commands arrive} in SMTP, LMTP and LMTP+LMTPSession. non-trivial = the stream contains a terminator look-alike or a bait line")
 THEOREMS = ["C02_only_marker", "C02_eof_means_marker", "C02_lookalikes", "data_monitor_accepts_model",
             "C02_resume", "C02_resume_escapes", "C02_wf_fresh", "C02_wf_invariant", "C02_resume_anywhere"]
 TOK = [b"\n.\n", b"\n.\r\n", b"\r\n.\n", b"\r.\r", b"\r\n.\r\n", b"a", b"MAIL FROM:<bait@x>\r\n", b".\r\n", b"\r\n"]
@@ -55,6 +55,33 @@ def late_tail_cases(tier, rng):
     return cases
 
 
+def timeout_cases(tier, rng):
+    """the read deadline expires in the middle of a message (DATA, or the payload of a BDAT chunk) and the rest of the message —
+    with bait command lines in it —, the end marker and further commands arrive afterwards: a timeout is final, nothing that
+    arrives after it may be executed (the connection is given up)"""
+    from vlib import convgen as g
+    from vlib.gen import hx
+    cases = []
+    tail = b"lo\r\nMAIL FROM:<bait@x>\r\nRCPT TO:<bait2@x>\r\n.\r\nMAIL FROM:<bait3@x>\r\nNOOP\r\nQUIT\r\n"
+    for lmtp, sess in ((0, 0), (1, 0), (1, 1)):
+        hello = b"LHLO x\r\n" if lmtp else b"EHLO x\r\n"
+        for kind in ("data", "bdat", "bdat-last"):
+            for dec in (g.ddec(ret="prop"), g.ddec(), g.ddec(want=3, rsz=2, ret=g.se(550, "5.7.1", b"no"))):
+                for mm in (0, 30):
+                    c = g.Conv(dict(lmtp=lmtp, lmtpsess=sess, maxmsg=mm, rt=1))
+                    c.add(hello, NS="ok"); c.add(b"MAIL FROM:<s@x>\r\n", MAIL="ok"); c.add(b"RCPT TO:<a@x>\r\n", RCPT="ok")
+                    if kind == "data":
+                        c.add(b"DATA\r\n"); c.add(b"Subject: t\r\n\r\nhel", DATA=dec)
+                    else:
+                        c.add((b"BDAT %d LAST\r\n" if kind == "bdat-last" else b"BDAT %d\r\n") % (6 + len(tail)) + b"abchel", DATA=dec)
+                    f = c.case(seg="line").split("\t")
+                    segs, end = f[3].split(";")
+                    for t in ([tail], [tail[:9], tail[9:]]):
+                        f2 = list(f); f2[3] = segs + ",TO," + ",".join(hx(x) for x in t) + ";" + end
+                        cases.append("\t".join(f2))
+    return cases
+
+
 def _proj_sched(case, ans):
     from vlib.props import C20
     return C20.project(case, ans) if case.startswith("sched") else _proj(case, ans)
@@ -70,7 +97,8 @@ def groups(tier, rng):
     conv = P.data_convs(tier, rng, limits=(0, 1))
     return [Group("dr/lookalikes", enum, theorems=THEOREMS),
             Group("conv/data-resume", conv, project=_proj, theorems=THEOREMS),
-            Group("sched/late-tail-after-early-verdict", late_tail_cases(tier, rng), project=_proj_sched, theorems=THEOREMS)]
+            Group("sched/late-tail-after-early-verdict", late_tail_cases(tier, rng), project=_proj_sched, theorems=THEOREMS),
+            Group("conv/timeout-inside-message", timeout_cases(tier, rng), project=_proj, theorems=THEOREMS)]
 
 
 def replay_groups(path):
